@@ -1521,10 +1521,25 @@ parse_citation:
 						}
 
 						if (temp_bool) {
-							printf("\\citet[%s]", temp_char);
+							print_const("\\citet[");
 						} else {
-							printf("~\\citep[%s]", temp_char);
+							print_const("~\\citep[");
 						}
+
+						// The locator is document text -- escape it (but keep the
+						// separator of a two-argument locator)
+						temp_char3 = strstr(temp_char, "][");
+
+						if (temp_char3) {
+							temp_char3[0] = '\0';
+							mmd_print_string_latex(out, temp_char);
+							print_const("][");
+							mmd_print_string_latex(out, temp_char3 + 2);
+						} else {
+							mmd_print_string_latex(out, temp_char);
+						}
+
+						print_const("]");
 					}
 
 					if (temp_note) {
